@@ -4,6 +4,7 @@ Differential monitor over budgets {1,2,3,4,5,10,11,30} plus the pass-trace speci
 on the hook H3 event log of every run.
 """
 import lib
+import runner
 from gen import workload
 from checks.c08 import lib_digest
 
@@ -18,11 +19,11 @@ SPEC = {
                    "requires hook H3 (pass log). Programs that need more than 30 passes are only seen failing."),
     "design_ref": "DESIGN.md sections 4 (U5) and 5 (C09)",
     "budget_s": {"quick": 55, "thorough": 1100},
-    "needs": ["probe-rel"],
+    "needs": ["probe-rel", "cli-rel"],
     "rule": ("jobs from static ISAs, cascading (value-dependent) ISAs, the test corpus (asm blocks, assertions) and mutants, each "
              "run under 8 budgets; non-trivial = program whose success flips inside the swept budgets or that needs >= 3 passes "
              "to converge; distinct = distinct file set"),
-    "monitors": ["budget-monotonicity", "iterations-within-budget", "pass-trace-spec", "unique-layout-value"],
+    "monitors": ["budget-monotonicity", "iterations-within-budget", "pass-trace-spec", "unique-layout-value", "budget-on-the-command-line"],
     "min_nontrivial": {"quick": 150, "thorough": 5000},
     "assumptions": ["hook H3 reports every top-level pass (begin/end events)"],
 }
@@ -164,6 +165,23 @@ def shard(ctx):
                         ctx.violation("budget-monotonic", {"kind": "output-is-not-the-unique-consistent-layout"}, job,
                                       {"bits": w["expected_hex"][:80]}, {"budget": b, "bits": rec["out"]["hex"][:80]})
                         break
+        # the same budget given on the command line, in the first of two output groups (real binary)
+        if w.get("expected_hex") is not None and (i // ctx.nshards) % 4 == 0:
+            b, job, rec = rng.choice([r for r in results if r[0] in (2, 3, 4, 5, 11)])
+            spell = rng.choice(["--iters=%d", "-t%d"]) % b
+            argv = ["main.asm", "-q", spell, "-f", "hexstr", "-p", "--", "-f", "symbols", "-o", "syms.txt"]
+            if rng.random() < 0.3:
+                argv = ["main.asm", "-q", "-f", "hexstr", "-p", "--", "-f", "symbols", "-o", "syms.txt", spell]
+            res = runner.run_cli(ctx.cli("rel"), argv, dict(w["files"]), cpu_s=10)
+            ctx.evaluated()
+            ctx.monitor("budget-on-the-command-line")
+            want_ok = lib.ok(rec)
+            got_ok = res["status"] == 0
+            if res["signal"] is None and not res["wall_timeout"]:
+                if got_ok != want_ok or (got_ok and res["stdout"].strip() != rec["out"]["hex"]):
+                    ctx.violation("budget-monotonic", {"kind": "command-line-budget-not-honoured", "library_ok": want_ok, "binary_ok": got_ok},
+                                  {"mode": "process", "argv": ["customasm"] + argv, "files": lib.files_json(w["files"])},
+                                  {"ok": want_ok, "hex": (rec.get("out") or {}).get("hex")}, {"status": res["status"], "stdout": res["stdout"].strip()[:80]})
         # monotonicity
         ctx.monitor("budget-monotonicity")
         first_ok = None
@@ -192,6 +210,15 @@ def shard(ctx):
 
 
 def replay(ctx, v):
+    if v["job"].get("mode") == "process":
+        job = v["job"]
+        files = {f[0]: (f[1] if isinstance(f[1], str) else bytes.fromhex(f[1]["h"])) for f in job["files"]}
+        res = runner.run_cli(ctx.cli("rel"), job["argv"][1:], files, cpu_s=10)
+        exp = v["expected"]
+        print("replay: status=%s stdout=%s" % (res["status"], res["stdout"].strip()[:80]))
+        if (res["status"] == 0) != bool(exp.get("ok")) or (exp.get("ok") and res["stdout"].strip() != exp.get("hex")):
+            ctx.violation(v["oracle"], v["sig"], job, exp, {"status": res["status"]})
+        return
     worker = ctx.worker("rel")
     base = dict(v["job"])
     first_ok = None
